@@ -328,11 +328,11 @@ def make_kk_harness(n_points: int, part: str, symbolic_minima: bool = False, qui
                 pass
             return R()
 
-        names = ["_leastsq_test", "_inv_test", "_cnls_test", "_estimate_target_num_RC", "_calculate_statistic", "_fit_cubic_and_interpolate",
+        names = ["_leastsq_test", "_inversion_test", "_cnls_test", "_estimate_target_num_RC", "_calculate_statistic", "_fit_cubic_and_interpolate",
                  "_pick_minimum", "Pool"]
         saved = {nm: getattr(ex, nm) for nm in names if hasattr(ex, nm)}
         saved_min = lmfit.minimize
-        ex._leastsq_test, ex._inv_test, ex._cnls_test = one_test, inv_test, cnls_test
+        ex._leastsq_test, ex._inversion_test, ex._cnls_test = one_test, inv_test, cnls_test
         ex._estimate_target_num_RC, ex._calculate_statistic, ex._fit_cubic_and_interpolate, ex._pick_minimum = target, statistic, cubic, pick
         ex.Pool = FakePool
         lmfit.minimize = minimize
@@ -384,7 +384,7 @@ def obligations(tier: str):
                               expect_reach=["zhit"], max_paths=3000000))
     kf = [ex.evaluate_log_F_ext, ex._perform_tests, ex._use_least_squares_fitting, ex._use_matrix_inversion, ex._use_cnls, ex._wrapper,
           ex._evaluate_log_F_ext_using_custom_approach, ex._evaluate_log_F_ext_using_lmfit, ex._log_F_ext_residual]
-    kstubs = ["test kernels (_leastsq_test, _inv_test, _cnls_test), _estimate_target_num_RC (-1, 0, 3 or 12), _calculate_statistic, "
+    kstubs = ["test kernels (_leastsq_test, _inversion_test, _cnls_test), _estimate_target_num_RC (-1, 0, 3 or 12), _calculate_statistic, "
               "_fit_cubic_and_interpolate, _pick_minimum (any value inside the limits), lmfit.minimize (calls the residual max_nfev+1 times) and Pool stubbed"]
     for n in ((6,) if tier == "quick" else (4, 6, 9)):
         obs.append(Obligation("kk.options.n%d" % n, make_kk_harness(n, "options", quick=(tier == "quick")),
